@@ -719,6 +719,104 @@ lemma loopInv_count (c : Ctx Z) (z0 : Z) (st : Loop Z) (lo hi : ℤ) (I : LoopIn
     rw [this, Int.toNat_natCast]
   rw [this]
 
+lemma topProb_zero (n : ℕ) : topProb n 0 = 0 := by
+  unfold topProb; simp
+
+/-- one direction of one doubling: build the new half, test, update — seen through any
+    continuation `K` that depends on the new state only through the index of its current point -/
+lemma dir_mix (c : Ctx Z) (hinv : StepInverse c) (guard : Z → Bool) (z0 : Z) (st : Loop Z) (lo hi i : ℤ)
+    (I : LoopInv c z0 st lo hi) (hs : st.s = true) (hcur : st.cur = pt c z0 i)
+    (v : ℤ) (hv : v = 1 ∨ v = -1) (K : Loop Z → ℚ) (V : ℤ → ℚ)
+    (hK : ∀ (y : Z) (a : Bool) (i1 : ℤ),
+      (nextLoop c st v ((buildTree c v st.j (if v = -1 then st.zminus else st.zplus) []).1.setCand y) a []).cur
+        = pt c z0 i1 →
+      K (nextLoop c st v ((buildTree c v st.j (if v = -1 then st.zminus else st.zplus) []).1.setCand y) a [])
+        = V i1) :
+    (buildTreeD c v st.j (if v = -1 then st.zminus else st.zplus)).E (fun t => (afterTree c guard st v t).E K)
+      = (orbOf c guard z0).mix st.j lo (if v = -1 then lo - 2 ^ st.j else lo + 2 ^ st.j) V i := by
+  obtain ⟨hn, hhi⟩ := loopInv_count c z0 st lo hi I hs
+  rw [buildTreeD_E c v st.j _ []]
+  have hstart : (if v = -1 then st.zminus else st.zplus) = pt c z0 (if v = -1 then lo else hi) := by
+    split
+    · exact I.zminus
+    · exact I.zplus
+  rw [hstart] at hK ⊢
+  have hblock : blockLo v (if v = -1 then lo else hi) st.j
+      = (if v = -1 then lo - 2 ^ st.j else lo + 2 ^ st.j) := by
+    unfold blockLo
+    split
+    · rfl
+    · exact hhi
+  have T := buildTree_inv c v st.j (pt c z0 (if v = -1 then lo else hi)) []
+  have S1 := wts_sum_one c v st.j (pt c z0 (if v = -1 then lo else hi)) []
+  have G := (buildTree_good c hinv guard z0 v hv st.j (if v = -1 then lo else hi) []).1
+  have A := tree_avg c hinv z0 v hv st.j (if v = -1 then lo else hi) []
+  rw [hblock] at G A
+  generalize (if v = -1 then lo - 2 ^ st.j else lo + 2 ^ st.j) = nlo at G A ⊢
+  generalize buildTree c v st.j (pt c z0 (if v = -1 then lo else hi)) [] = r at T S1 G A hK ⊢
+  obtain ⟨t0, us0⟩ := r
+  simp only at T S1 G A hK ⊢
+  simp only [afterTree_E, setCand_s, setCand_n, setCand_cand]
+  have hKf : ∀ y, K (nextLoop c st v (t0.setCand y) false []) = V i := fun y => hK y false i hcur
+  by_cases hts : t0.s = true
+  · obtain ⟨hn', havg⟩ := A hts
+    simp only [hts, if_true, hKf]
+    have hKg : ∀ y, K (nextLoop c st v (t0.setCand y) (guard y) [])
+        = if guard y = true then K (nextLoop c st v (t0.setCand y) true []) else V i := by
+      intro y
+      by_cases hg : guard y = true
+      · rw [hg]; simp
+      · have hg' : guard y = false := by simpa using hg
+        rw [hg', hKf]; simp
+    have e : wsum t0.leaves t0.wts (fun y => topProb st.n t0.n * K (nextLoop c st v (t0.setCand y) (guard y) [])
+          + (1 - topProb st.n t0.n) * V i)
+        = V i + topProb st.n t0.n * wsum t0.leaves t0.wts
+            (fun y => if guard y = true then K (nextLoop c st v (t0.setCand y) true []) - V i else 0) := by
+      rw [← wsum_mul_left, ← one_mul (V i), ← S1, ← wsum_const t0.leaves t0.wts (V i) T.wts_len, ← wsum_add]
+      apply wsum_congr
+      intro y _
+      rw [hKg]
+      split <;> ring
+    rw [e]
+    have hmixacc : (orbOf c guard z0).acc st.j lo nlo = topProb st.n t0.n := by
+      unfold Orb.acc topProb
+      rw [← G, hts, if_pos rfl, hn, hn']
+      rfl
+    unfold Orb.mix Orb.stay
+    rw [hmixacc]
+    by_cases hpos : 0 < t0.n
+    · rw [havg hpos]
+      have hne : (t0.n : ℚ) ≠ 0 := by exact_mod_cast (ne_of_gt hpos)
+      have hsum : (1 / (t0.n : ℚ)) * ∑ t ∈ range (2 ^ st.j),
+            (if sliceAt c z0 (nlo + t) = true then
+              (if guard (pt c z0 (nlo + t)) = true
+                then K (nextLoop c st v (t0.setCand (pt c z0 (nlo + t))) true []) - V i else 0) else 0)
+          = ∑ t ∈ range (2 ^ st.j), (orbOf c guard z0).unif nlo st.j (nlo + t) * (V (nlo + t) - V i) := by
+        rw [Finset.mul_sum]
+        apply Finset.sum_congr rfl
+        intro t ht
+        rw [Orb.unif_at _ _ _ _ (Finset.mem_range.mp ht)]
+        have hKt : K (nextLoop c st v (t0.setCand (pt c z0 (nlo + t))) true []) = V (nlo + t) :=
+          hK _ true _ rfl
+        have hcnt : (cnt (orbOf c guard z0).S nlo (2 ^ st.j) : ℚ) = (t0.n : ℚ) := by
+          rw [hn']; rfl
+        rw [hKt, hcnt]
+        show _ = (if sliceAt c z0 (nlo + t) = true ∧ guard (pt c z0 (nlo + t)) = true then _ else _) * _
+        by_cases h1 : sliceAt c z0 (nlo + t) = true <;> by_cases h2 : guard (pt c z0 (nlo + t)) = true <;>
+          simp [h1, h2]
+      rw [hsum]
+      simp only [mul_sub, Finset.sum_sub_distrib, ← Finset.sum_mul]
+      ring
+    · have h0 : t0.n = 0 := by omega
+      rw [h0, topProb_zero]
+      ring
+  · have hf : t0.s = false := by simpa using hts
+    simp only [hts, if_false, hKf]
+    rw [wsum_const _ _ _ T.wts_len, S1, one_mul]
+    unfold Orb.mix Orb.stay Orb.acc
+    rw [← G, hf]
+    simp
+
 end ModelLaw
 
 end CuqiVerif.C08
